@@ -23,7 +23,8 @@ from typing import Any, Dict, List, Optional, Tuple
 from harness.lib import coqbuild, protocol as P, sched as S
 
 LEVEL = "proof"
-THEOREMS = ["C04_no_damage", "C04_unreachable", "C04_liveness", "C04_delete_only_unflipped", "C04_pre_or_post"]
+THEOREMS = ["C04_no_damage", "C04_unreachable", "C04_liveness", "C04_delete_only_unflipped", "C04_pre_or_post",
+            "C04_handlers_keep_after_possible_flip"]
 REQ = ["DS.Model.Commit", "DS.Model.Fault"]
 MANIFEST_ENTRY = {
     "level_text": "C04_no_damage and companions proved in Coq by an inductive invariant over every sequence of protocol steps, "
@@ -33,10 +34,10 @@ MANIFEST_ENTRY = {
                   "injected at every storage call (exception before effect, after effect, KeyboardInterrupt / SystemExit), both "
                   "call styles, local / CAS-S3 / non-CAS-S3 backends are projected onto the model and must be accepted by its "
                   "strict run; an implementation-only oracle judges pre/post state, file presence, ambiguity and liveness",
-    "level_note": "trusted: Coq kernel; harness projection (where the exception escaped, which deletions are a rollback); the model "
+    "level_note": "trusted: Coq kernel; translator/gen_commit.py (exception-handler tables of Transaction.commit / MetadataManager.commit / _write_hint_at_commit_point, C04_handlers_keep_after_possible_flip); harness projection (where the exception escaped, which deletions are a rollback); the model "
                   "over-approximates which files a version references (base + everything the transaction wrote); in-memory S3 as "
                   "in C08",
-    "technique": "Coq invariant proof over commit machine + file plane; fault-injection trace validation",
+    "technique": "Coq invariant proof over commit machine + file plane with translator-regenerated handler tables; fault-injection trace validation",
     "design_ref": "DESIGN.md section 5 C04",
 }
 
@@ -329,7 +330,7 @@ def run(ctx) -> None:
                 "(backend, op, style, k, kind)")
     ctx.trusted_base += ["harness/lib/sched.py fault directives, protocol.py, mems3.py; harness/props/c04.py projection"]
     ctx.assumptions += ["storage failures are injected as OSError and as a non-OSError (botocore ClientError); KeyboardInterrupt/SystemExit for every BaseException"]
-    ctx.proofs(THEOREMS)
+    ctx.proofs(THEOREMS, gen_files=["GenCommit.v"])
     ctx.allow_axioms([])
     quick = ctx.tier == "quick"
     combos = []
